@@ -110,6 +110,34 @@ func batch(res *evid.Result, bi int, root string) {
 }
 `, name, lits[0], lits[1], lits[2])})
 	}
+	// function literals with NAMED results that are invoked in place, deferred and spawned (the
+	// scoped-defer idiom): renaming those result identifiers is a rename like any other
+	for k := 0; k < 2; k++ {
+		name := fmt.Sprintf("Scoped%d", k)
+		base.Funcs = append(base.Funcs, gen.Func{Name: name, Sig: gen.SigII, Exec: true, Tags: []string{"literal-named-results"}, Text: fmt.Sprintf(`func %s(a int, b int) (res int) {
+	total, bad := func() (sum int, failed bool) {
+		for i := 0; i < a&7; i++ {
+			sum += i*b + %d
+		}
+		failed = sum > 100
+		return
+	}()
+	defer func() (code int, note string) {
+		code, note = res, "done"
+		return
+	}()
+	done := make(chan int, 1)
+	go func(c chan int) (sent int, err error) {
+		c <- total
+		return 1, nil
+	}(done)
+	if bad {
+		return -total - <-done
+	}
+	return total + <-done
+}
+`, name, 3+k)})
+	}
 	kindSets := [][]string{{"rename-locals"}, {"rename-func"}, {"comment", "reorder"}, {"rename-locals", "rename-func", "comment", "reorder"}}
 	var vs []*pairs.Variant
 	for k, ks := range kindSets {
